@@ -243,6 +243,35 @@ def add (fl : Flavour) (w : World) (verbose : Bool) (archive : Str) (raw : Bytes
   | .error e => { status := .raised e }
   | .ok img => performOn fl w verbose archive img srcs
 
+/-! ### the refusal of a source that is the archive itself
+
+  Before its loop starts, `perform` raises `ValueError("source.is.the.archive")` when one of the source
+  arguments is not a marker, designates an existing file, and is the archive's own path: saving the archive
+  would destroy that source. -/
+
+/-- a source argument that designates the archive itself -/
+def srcIsArchive (w : World) (archive src : Str) : Bool :=
+  !(basename (upper src) == str "--EOS") &&
+  (match w (splitSource src).2.2.2 with
+   | some _ => samePath (splitSource src).2.2.2 archive
+   | none => false)
+
+/-- `run` is the outcome of the same invocation without the refusal -/
+def guardSources (w : World) (archive : Str) (img : Image) (srcs : List Str) (run : Outcome) : Outcome :=
+  if img.length < 4 then run
+  else if srcs.any (srcIsArchive w archive) then { status := .raised (.valueError "source.is.the.archive") }
+  else run
+
+/-- `--create` as the command line runs it -/
+def createCmd (fl : Flavour) (w : World) (verbose : Bool) (archive : Str) (srcs : List Str) : Outcome :=
+  guardSources w archive ((List.replicate 4 blankSide).map initFileSystem) srcs (create fl w verbose archive srcs)
+
+/-- `--add` as the command line runs it -/
+def addCmd (fl : Flavour) (w : World) (verbose : Bool) (archive : Str) (raw : Bytes) (srcs : List Str) : Outcome :=
+  match load fl raw with
+  | .error _ => add fl w verbose archive raw srcs
+  | .ok img => guardSources w archive img srcs (add fl w verbose archive raw srcs)
+
 /-- `DiskArchiveCli.run`: the check of the archive name, before anything is opened -/
 def checkArchiveName (fl : Flavour) (archive : Str) : Except PyErr Unit :=
   match rfindFrom 46 archive 0 with
